@@ -7,6 +7,9 @@ from concurrent.futures import ThreadPoolExecutor
 from . import core
 
 
+RUN_NO = [0]
+
+
 def mc_cfg(maxops, universe, undo=True):
     u = ", ".join(f'"{p}"' for p in universe)
     return (f"INIT InitX\nNEXT Next\nCONSTANTS MaxOps = {maxops}  UndoOnRefusal = {'TRUE' if undo else 'FALSE'}  "
@@ -21,15 +24,18 @@ def explore(out, maxops, universe, name):
     return hists, sigs
 
 
-def run_histories(cases, work, driver="harness.drivers.life_driver", par=12):
-    n = max(1, (len(cases) + par - 1) // par)
+def run_histories(cases, work, driver="harness.drivers.life_driver", par=12, maxchunk=2000):
+    # at most maxchunk histories per interpreter (a driver process has a time limit), `par` interpreters at a time
+    n = min(maxchunk, max(1, (len(cases) + par - 1) // par))
     chunks = [cases[i:i + n] for i in range(0, len(cases), n)]
+    RUN_NO[0] += 1
+    run_no = RUN_NO[0]
 
     def one(ix):
-        cin = os.path.join(work, f"lc{ix}.json")
-        cout = os.path.join(work, f"lt{ix}.json")
+        cin = os.path.join(work, f"lc{run_no}_{ix}.json")
+        cout = os.path.join(work, f"lt{run_no}_{ix}.json")
         json.dump(chunks[ix], open(cin, "w"))
-        core.run_driver(driver, [cin, cout])
+        core.run_driver(driver, [cin, cout], timeout=3000)
         return json.load(open(cout))
     with ThreadPoolExecutor(max_workers=par) as ex:
         res = list(ex.map(one, range(len(chunks))))
